@@ -305,9 +305,10 @@ ClsP(T) == TCls("KP", << Fld("s_a", TStr, NoDef), Fld("s_b", T, NoDef) >>, <<"tu
 LitIS  == TLit(<<MkStr("s_a"), MkInt(1), MkNone>>)
 EnumS  == TEnum("Color", <<MkStr("s_a"), MkStr("s_b")>>)
 EnumI  == TEnum("Num", <<MkInt(1), MkInt(2)>>)
+EnumN  == TEnum("Fill", <<MkNone, MkStr("s_a")>>)      \* a member whose value is None: null denotes it, also beside a bare None member
 SubI   == TSub("MyInt", TInt)
 SubS   == TSub("MyStr", TStr)
-ExtraLeaves == { LitIS, TLit(<<MkBool("T")>>), EnumS, EnumI, SubI, SubS,
+ExtraLeaves == { LitIS, TLit(<<MkBool("T")>>), EnumS, EnumI, EnumN, SubI, SubS,
                  TDict("dict", TUnion(<<TStr, TInt>>), TFloat), TDict("dict", TUnion(<<TInt, TS("fraction")>>), TInt),
                  \* (mappings of anything to anything: these may be written without type arguments)
                  TDict("dict", TS("any"), TS("any")), TDict("defaultdict", TS("any"), TS("any")), TDict("ordereddict", TS("any"), TS("any")),
@@ -355,7 +356,7 @@ TaggedLeaves == { TTagged(vs, lay) : vs \in { <<V1, V2>>, <<V1, V2, V3>>, <<V3, 
 
 (* C11: members that overlap *)
 UPoolQ == { TInt, TFloat, TS("complex"), TS("bool"), TStr, TS("fraction"), TS("date"), TS("datetime"), TS("none"),
-            TLit(<<MkInt(1), MkInt(2)>>), TLit(<<MkStr("s_a")>>), EnumS, TAnn(TInt, <<[k |-> "pos"]>>), SubI,
+            TLit(<<MkInt(1), MkInt(2)>>), TLit(<<MkStr("s_a")>>), EnumS, EnumN, TAnn(TInt, <<[k |-> "pos"]>>), SubI,
             TSeq("list", TInt), TSeq("tuplevar", TInt), TTuple(<<TInt, TInt>>),
             ClsT(TInt), TCls("KB", << Fld("s_a", TInt, NoDef) >>, <<"struct", "tuple">>, "struct"),
             TStruct(<< <<"s_a", TInt>> >>) }
@@ -539,7 +540,7 @@ Wrap(T) ==
   \cup { TDict(k, TStr, T) : k \in {"dict", "defaultdict", "ordereddict"} }
   \cup (IF T.k \in KeyKinds THEN { TDict("dict", T, TInt), TCounter(T) } ELSE {})
   \cup { TStruct(<< <<"s_a", T>> >>), TStruct(<< <<"s_a", TInt>>, <<"s_b", T>> >>) }
-  \cup { TUnion(<<T, TStr>>), TUnion(<<TS("none"), T>>), TUnion(<<TInt, T>>) }
+  \cup { TUnion(<<T, TStr>>), TUnion(<<TS("none"), T>>), TUnion(<<TInt, T>>), TOpt(T) }
   \cup { TCls("K1", << Fld("s_a", T, NoDef), Fld("s_b", TInt, DefVal(MkInt(5))) >>, <<"struct", "tuple">>, "struct") }
 
 (* a representative of each family of embedding context, for the outer levels of the quick tier *)
